@@ -80,6 +80,7 @@ static void st_create(int scope)
     for (i = 0; i < npool; i++) pool[i] = new_elem(i, i % nkeys);
     for (i = 0; i < nlists; i++) {
         cls[i] = mixed ? (i & 1) : 0;
+        memset(&L[i], 0x77, sizeof(L[i]));      /* the object's previous bytes are garbage to a fresh list */
         /* both documented ways of making a list: the init function and the static initialiser macro */
         if ((scope >> 21) & 1) {
             if (cls[i]) L[i] = (struct cstl_slist)CSTL_SLIST_INITIALIZER(L[i], struct elem, node[1]);
